@@ -27,8 +27,8 @@ the inner stream, i.e. they already cover failures; here are the C08 readings, a
    run, the end, or the fatal error itself. A machine that keeps answering `ctx.Err()` does not satisfy
    this (`stuck_machine_excluded`).
 
-`Flatten`, `Join` (several sources) and `Runs` have levels 1 and 2 and, for the whole run, the weaker
-erased reading (`*_transient_conforms_partial`).
+`Flatten` and `Join` (several sources) have levels 1 and 2 and, for the whole run, the weaker erased
+reading (`*_transient_conforms_partial`).
 -/
 namespace Juniper.Props.C08
 open Juniper.Model Juniper.Model.Stream Juniper.Spec Juniper.Gen.Comb
@@ -295,7 +295,7 @@ theorem sample_err {m : SM σ α} {cost : σ → Nat} {s : σ} {L : List (α × 
 items `l`: the complete runs of `l` are delivered, the run being collected when the failure strikes is
 dropped (it is not an output the items seen determine: `runsGoS … [] (.fail E) = []`), then `E` itself. A
 failed call that costs nothing — whether it hit the outer stream while it was skipping the rest of a run,
-or an inner stream — changes nothing (`runs_transient_conforms_partial`). -/
+or an inner stream — changes nothing (`runs_retry_exact`). -/
 theorem runs_fatal (same : α → α → Bool) (hrefl : ∀ a, same a a = true) (take : Option Nat) (closeInner : Bool)
     (l : List α) (E : Nat) (rest : List (Ev α)) :
     SDen Err.soft (runsProto same take closeInner src) (StreamDen.rcost fun s : Src α => s.pulled)
@@ -392,6 +392,19 @@ theorem flattenSlices_retry_exact (sc : List (Ev (List α))) :
   retry_exact (M := flattenSlices src) (proj := fun st => st.inner) (flattenSlices_softThru src)
     (flattenSlices_sden (source_fault_denotes sc))
 
+/-- `Runs` (documented protocol: outer `Next`, read the inner stream, optionally close it, advance): a
+failed call — whether it hit the outer stream while it was skipping the rest of a run, or an inner
+stream — returns the script's own error and loses nothing of the run being collected. -/
+theorem runs_retry_exact (same : α → α → Bool) (hrefl : ∀ a, same a a = true) (take : Option Nat)
+    (closeInner : Bool) (sc : List (Ev α)) :
+    ∃ F, ∀ fuel, F ≤ fuel → ∀ cs : List Bool,
+      ExactE (cs.zip (snexts (runsProto same take closeInner src) fuel cs ⟨⟨⟨Src.of sc, none⟩, 0, none⟩, none⟩))
+        (transientsOf sc) ((runsStartS same take (scriptItems true 0 sc) (scriptTerm true 0 sc)).map Prod.fst)
+        (scriptTerm true 0 sc) :=
+  retry_exact (M := runsProto same take closeInner src) (proj := fun st => st.rs.pk.inner)
+    (runsProto_softThru same take closeInner src)
+    ((runs_sden same hrefl take closeInner (source_fault_denotes sc)).2.2 0)
+
 /-- `Peek` under faults (live context; `peekable.Peek` is one of the anchors): it never changes what the
 stream denotes; it answers the first item, the end, a soft failure (nothing lost, nothing buffered), or
 the hard failure the stream denotes — itself. -/
@@ -403,10 +416,10 @@ theorem peek_faults {soft : Err → Bool} {m : SM σ α} {cost : σ → Nat} {s 
       ((peekPeek m ⟨s, none⟩ true).1 = .skip ∨ (∃ e, (peekPeek m ⟨s, none⟩ true).1 = .err e ∧ soft e = true) ∨
         ∃ a c L', L = (a, c) :: L' ∧ (peekPeek m ⟨s, none⟩ true).1 = .item a)) := peekPeek_sden h
 
-/-! ### the multi-source combinators and `Runs`: the erased reading (partial)
+/-! ### the multi-source combinators: the erased reading (partial)
 
-For `Flatten`, `Join` and `Runs` the steps (`*_error_itself`) and single calls (`failed_call_costs_nothing`,
-which applies to them through `s_flatten_denotes` / `s_join_denotes` / `s_runs_denotes`) are exact. For the
+For `Flatten` and `Join` the steps (`*_error_itself`) and single calls (`failed_call_costs_nothing`,
+which applies to them through `s_flatten_denotes` / `s_join_denotes`) are exact. For the
 whole run only the *erased* reading is stated: the answers with the failed calls that cost nothing removed
 (`hard`) conform to the fault-free sequence. That reading does not say that a failed call returned the
 script's own transient error, nor that a live call never answers the context error, and it bounds the
@@ -456,16 +469,6 @@ theorem join_transient_conforms_partial (scs : List (List (Ev α))) :
   exact sden_conforms rfl (join_sden (soft := Err.soft) srcD (scs.map Src.of) (fun s hs => by
     obtain ⟨sc, _, rfl⟩ := List.mem_map.mp hs
     exact srcD_hyp_script sc) [])
-
-/-- **`runs_transient_conforms_partial`** (documented protocol): erased reading. -/
-theorem runs_transient_conforms_partial (same : α → α → Bool) (hrefl : ∀ a, same a a = true) (take : Option Nat)
-    (closeInner : Bool) (sc : List (Ev α)) :
-    ∃ F, ∀ fuel, F ≤ fuel → ∀ cs,
-      Conforms (hard Err.soft (snexts (runsProto same take closeInner src) fuel cs ⟨⟨⟨Src.of sc, none⟩, 0, none⟩, none⟩))
-        ((runsStartS same take (scriptItems true 0 (eraseT sc)) (scriptTerm true 0 (eraseT sc))).map Prod.fst)
-        (scriptTerm true 0 (eraseT sc)) :=
-  erased_run_conforms_weak sc (fun L t => (runsStartS same take L t, t))
-    ((runs_sden same hrefl take closeInner (source_fault_denotes sc)).2.2 0)
 
 /-! ### `*_fatal`: the source delivers `l` and then fails for good with `E` -/
 
@@ -608,9 +611,9 @@ positions, possibly a fatal one — under any per-call contexts: call by call (`
 the context error only under an expired context, each transient error of the script *itself*, in order
 and at most once, under a live context, and otherwise exactly what the pipeline yields on the script
 without its transient failures — nothing lost, nothing duplicated — ending with the pipeline's own image
-of the script's termination. (For pipelines containing `Flatten` / `Join` / `Runs` / `Chunk` alone / a
-type-changing `Map`: compose `retry_exact` with the stages' `*_softThru` and `s_*_denotes` lemmas by hand;
-`SoftThru` for the multi-source stages is not proved.) -/
+of the script's termination. (For pipelines containing `Runs` / `Chunk` alone / a type-changing `Map`: compose `retry_exact` with the
+stages' `*_softThru` and `s_*_denotes` lemmas by hand; `SoftThru` for the multi-source stages `Flatten` /
+`Join` is not proved.) -/
 theorem pipeline_retry_exact {α : Type} (p : SPipe α) (sc : List (Ev α)) :
     ∃ F, ∀ fuel, F ≤ fuel → ∀ cs : List Bool,
       ExactE (cs.zip (snexts (p.machine src).m fuel cs ((p.machine src).wrap (Src.of sc)))) (transientsOf sc)
